@@ -78,21 +78,21 @@ Section Frag.
     assert (X2 : in_urange 2 n = true) by (unfold in_urange; change (pow256 2) with 65536; lia).
     assert (X4 : in_urange 4 off = true) by (unfold in_urange; change (pow256 4) with 4294967296; lia).
     rewrite X2, X4.
-    cbn [bind].
+    cbn [bind]. unfold SVC_READ_FRAG.
     set (kk := Z.min (n * s - off) (frag_lim (ls_pol app) l s room off)).
     destruct (frag_lim_bounds (ls_pol app) l s room off Hs1 Hroom) as [Hlim Hlimmod].
     assert (Hkk : 1 <= kk <= total - off) by (subst kk total; lia).
     (* the fragment *)
     assert (Hfrag : exists d, loc_bytes (ls_pol app) img l off kk = Some d /\ Path.len d = kk
-                              /\ received (off + kk) (joined ++ d)
+                              /\ (off + kk < total -> received (off + kk) (joined ++ d))
                               /\ (off + kk = total -> joined ++ d = full)).
     { unfold loc_bytes in *. destruct (w_bit l) as [b|] eqn:Eb.
       - assert (total = 1) by (apply Hbit; discriminate). assert (off = 0) by lia. assert (kk = 1) by lia.
         destruct (get_bytes img (w_off l) 1) as [[|x [|y t]]|]; try discriminate.
         eexists. split; [reflexivity|]. split; [subst kk; rewrite H1; reflexivity|].
         destruct Hrec as [[_ ->]|[? _]]; [|lia]. split.
-        + right. lia.
-        + intros _. cbn [app]. congruence.
+        + intros ?. lia.
+        + intros _. cbn [List.app]. congruence.
       - destruct (get_bytes_split _ _ _ _ Hfull) as (_ & Hlf & Ho0 & _ & Hfit).
         destruct (get_bytes_some img (w_off l + off) kk) as [d Hd]; [lia|lia|unfold Path.len in *; lia|].
         exists d. split; [exact Hd|]. split; [apply (get_bytes_len _ _ _ _ Hd)|].
@@ -102,13 +102,13 @@ Section Frag.
             by (unfold Expect.blen, Path.len in *; lia). reflexivity. }
         pose proof (get_bytes_concat _ _ _ _ _ _ Hj Hd) as Hc.
         split.
-        + right. split; [lia|]. split; [reflexivity|exact Hc].
+        + intros _. right. split; [lia|]. split; [exact Eb|exact Hc].
         + intros E. rewrite E in Hc. replace (w_off l + 0) with (w_off l) in Hfull by lia. congruence. }
     destruct Hfrag as (d & Hd & Hld & Hrec' & Hlast).
     destruct (peer_frag app ms st conn path pb n l img s tb off d Hq Hpw Hcia Hres Hmem Hn ltac:(lia) Hs Htb Hs1 Hav
                 ltac:(subst total; lia) Hal Hroom Hd Hmsg) as (st1 & Hpeer & Hq1).
-    fold kk in Hpeer.
-    rewrite (send_some _ _ _ _ _ Hpeer).
+    change (Z.min (n * s - off) (frag_lim (ls_pol app) l s (conn - 2 - 4 - Expect.blen tb) off)) with kk in Hpeer.
+    rewrite (send_some _ _ _ _ _ Hpeer). cbv beta iota.
     set (stt := if kk <? n * s - off then 6 else 0) in *.
     assert (Hst : stt = 0 \/ stt = 6) by (subst stt; destruct (kk <? n * s - off); auto).
     destruct (parse_unit_210 stt (tb ++ d) Hst) as (Hvalid & Hdata & Hstatus).
@@ -117,15 +117,20 @@ Section Frag.
     destruct (kk <? n * s - off) eqn:Emore.
     - (* more follows *)
       change (6 =? 6) with true. cbv iota. rewrite Hld.
-      destruct (IH fuel st1 (off + kk) (joined ++ d) (sent ++ [82 :: path ++ le_enc 2 n ++ le_enc 4 off])) as (st' & sent' & Hl & Hq');
-        try assumption; try lia.
-      + subst total. lia.
-      + intros Hns. specialize (Hal Hns). specialize (Hlimmod Hns).
-        assert (kk mod s = 0).
-        { subst kk. destruct (Z.min_spec (n * s - off) (frag_lim (ls_pol app) l s room off)) as [[_ ->]|[_ ->]]; [|exact Hlimmod].
+      assert (Emore' : kk < total - off) by (subst total; lia).
+      assert (P1 : 0 <= off + kk < total) by lia.
+      assert (P2 : loc_is_struct l = false -> (off + kk) mod s = 0).
+      { intros Hns. specialize (Hal Hns). specialize (Hlimmod Hns).
+        assert (Hkm : kk mod s = 0).
+        { unfold kk. destruct (Z.min_spec (n * s - off) (frag_lim (ls_pol app) l s room off)) as [[_ ->]|[_ ->]]; [|exact Hlimmod].
           rewrite Zminus_mod, Hal, Z.mod_mul by lia. reflexivity. }
-        rewrite Z.add_mod, Hal, H by lia. reflexivity.
-      + exists st', sent'. split; [exact Hl|exact Hq'].
+        rewrite Z.add_mod, Hal, Hkm by lia. reflexivity. }
+      assert (P3 : received (off + kk) (joined ++ d)) by (apply Hrec'; lia).
+      assert (P4 : (Z.to_nat (total - (off + kk)) <= k)%nat) by lia.
+      assert (P5 : (k < fuel)%nat) by lia.
+      destruct (IH fuel st1 (off + kk) (joined ++ d) (sent ++ [82 :: path ++ le_enc 2 n ++ le_enc 4 off]) Hq1 P1 P2 P3 P4 P5)
+        as (st' & sent' & Hl & Hq').
+      exists st', sent'. split; [exact Hl|exact Hq'].
     - (* the last fragment *)
       change (0 =? 6) with false. cbv iota.
       assert (off + kk = total) by (subst total; lia).
